@@ -123,6 +123,11 @@ class PythonMethodAnalyzer:  # thailint: ignore[srp]
             self._check_method(item, class_name)
         elif isinstance(item, ast.ClassDef):
             self._process_nested_class(item)
+        if isinstance(item, (ast.FunctionDef, ast.AsyncFunctionDef)):
+            # classes declared inside a method body are classes too
+            for inner in ast.walk(item):
+                if isinstance(inner, ast.ClassDef):
+                    self._process_nested_class(inner)
 
     def _process_nested_class(self, class_node: ast.ClassDef) -> None:
         """Process a nested class, avoiding duplicates.
